@@ -65,15 +65,28 @@ def dump_graph(cfg: str, timeout=3000) -> tuple[Graph, "tlc.TLCResult"]:
 
 
 # ------------------------------------------------------------------------------------------------ real objects
-class T1:
-    pass
+sys.path.insert(0, str(core.VERIF / "harness" / "fixtures"))
 
 
-class T2:
-    pass
+def _fx():
+    import verif_inject_fixture as fx
+    return fx
 
 
-TY = {"T1": T1, "T2": T2}
+class _Types(dict):
+    """T1/T2 live in the inject fixture module (imported lazily, after asphalt's import path is fixed)"""
+
+    def __missing__(self, k):
+        fx = _fx()
+        self["T1"], self["T2"] = fx.T1, fx.T2
+        return dict.__getitem__(self, k)
+
+    def items(self):
+        self["T1"]
+        return dict.items(self)
+
+
+TY = _Types()
 BAD_NAMES = ["bad name", "a.b", "", "x:y"]
 
 
@@ -101,6 +114,8 @@ class Real:
         self.cur = None
         self.prev = {}
         self.step_no = 0
+        self.agents = {}
+        self.last_inject = None
 
     def remember(self, obj, cid):
         self.ids[id(obj)] = cid
@@ -152,6 +167,8 @@ class Real:
                 await ctx.__aenter__()
                 self.prev[c] = self.cur
                 self.cur = c
+                if self.inject:
+                    await self.start_agent(c)
                 return "ok", None
             ctx = self.ctx[c]
             if a == "Close":
@@ -169,7 +186,7 @@ class Real:
                 elif cb == "ok":
                     # the specification says this add fails: its callback must never run
                     kwargs["teardown_callback"] = lambda: self.tdlog.append(("failed-add", c))
-                value = TY[sorted(ts)[0]]() if len(ts) == 1 else type("Both", (T1, T2), {})()
+                value = TY[sorted(ts)[0]]() if len(ts) == 1 else type("Both", (TY["T1"], TY["T2"]), {})()
                 name = n
                 types = self.types_arg(ts)
                 if len(ts) == 1 and self.variant % 2 == 1 and flaw == "none":
@@ -197,7 +214,7 @@ class Real:
                 me = self
 
                 def make():
-                    o = TY[sorted(ts)[0]]() if len(ts) == 1 else type("Both", (T1, T2), {})()
+                    o = TY[sorted(ts)[0]]() if len(ts) == 1 else type("Both", (TY["T1"], TY["T2"]), {})()
                     me.calls[(fid, me.get_ctx)] += 1
                     me.generated = (o, fid)
                     me.remember(o, ("g", me.get_ctx, fid))
@@ -239,11 +256,13 @@ class Real:
                 if flaw == "badname":
                     name = BAD_NAMES[self.step_no % len(BAD_NAMES)]
                 elif flaw == "nonetype":
-                    kw = {"types": [T1, None]}
+                    kw = {"types": [TY["T1"], None]}
                 elif flaw == "notypes":
                     kw = {}
                 ctx.add_resource_factory(cbk, name, description="fd", **kw)
                 return "ok", None
+            if a == "Inject":
+                return await self.inject_step(obs)
             if a == "Get":
                 t, n, api, opt = obs["t"], obs["n"], obs["api"], obs["opt"]
                 self.get_ctx, self.generated = c, None
@@ -273,6 +292,67 @@ class Real:
         except (ValueError, TypeError):
             return "Invalid", None
 
+    # ---- @inject: calls are made by an agent task spawned inside the context, whose current context is therefore c
+    inject = False
+
+    async def start_agent(self, c):
+        import anyio
+        send, recv = anyio.create_memory_object_stream(10)
+        self.agents[c] = send
+
+        async def agent():
+            async with recv:
+                async for fn, arg, box, done in recv:
+                    try:
+                        r = fn(arg)
+                        if hasattr(r, "__await__"):
+                            r = await r
+                        box.append(("ret", r))
+                    except BaseException as e:  # noqa: BLE001
+                        box.append(("exc", e))
+                        if isinstance(e, anyio.get_cancelled_exc_class()):
+                            raise
+                    finally:
+                        done.set()
+        self.tg.start_soon(agent)
+
+    async def inject_step(self, obs):
+        import anyio
+        from asphalt.core import AsyncResourceError, ResourceNotFound
+        fx = _fx()
+        c, t, n, fk, opt = obs["c"], obs["t"], obs["n"], obs["api"], obs["opt"]
+        fn, desc = fx.get(fk, t, n, opt, self.variant + self.step_no, self.variant // 2 + self.step_no)
+        self.last_inject = desc
+        self.get_ctx, self.generated = c, None
+        body_before = len(fx.BODY)
+        box, done = [], anyio.Event()
+        token = ("pass", self.step_no)
+        await self.agents[c].send((fn, token, box, done))
+        await done.wait()
+        kind, val = box[0]
+        if kind == "exc":
+            if len(fx.BODY) != body_before:
+                return "body-ran-although-the-call-raised", None
+            if isinstance(val, ResourceNotFound):
+                return "ResourceNotFound", None
+            if isinstance(val, AsyncResourceError):
+                return "AsyncResourceError", None
+            if isinstance(val, RuntimeError):
+                return "RuntimeError", None
+            return "raised:" + type(val).__name__, None
+        if len(fx.BODY) != body_before + 1 or not isinstance(val, tuple) or val[0] != token or val[2] is not None:
+            return "arguments-not-passed-through", None
+        v = val[1]
+        if v is None:
+            return "None", None
+        vid = self.ids.get(id(v), ("?", type(v).__name__))
+        return ("gen" if self.generated is not None else "val"), vid
+
+    async def explicit_lookup(self, obs):
+        """what the explicit lookup gives right now in the real code (used to attribute an @inject difference)"""
+        o = dict(obs, a="Get")
+        return await Real.step(self, o)
+
     def projection(self):
         out = []
         for c in range(1, self.nctx + 1):
@@ -300,6 +380,8 @@ class Real:
                 pass
         for sc in self.listeners.values():
             sc.cancel()
+        for a in self.agents.values():
+            a.close()
 
 
 class Boom(Exception):
@@ -452,6 +534,8 @@ class RealLife(Real):
                 await self.workers[c]["done"].wait()
         for sc in self.listeners.values():
             sc.cancel()
+        for a in self.agents.values():
+            a.close()
 
 
 def spec_projection(enc):
@@ -546,6 +630,11 @@ def loop_obs(row):
         if row[7] != 0:
             o["v"] = row[7]
         return o
+    if a == "Inject":
+        o = {"a": a, "c": row[1], "t": row[2], "n": row[3], "api": row[4], "opt": row[5], "r": row[6], "ev": []}
+        if row[7] != 0:
+            o["v"] = row[7]
+        return o
     if a == "AddTd":
         return {"a": a, "c": row[1], "kind": row[2], "r": row[3], "ev": []}
     if a == "Enter":
@@ -564,7 +653,15 @@ async def check_step(real: Real, obs, to_enc, before_proj, failed_expected):
     exp_r = obs["r"]
     if exp_r == "StackCorruptionOrOwn" and got_r in ("StackCorruption", obs.get("how")):
         exp_r = got_r
-    if got_r != exp_r:
+    if obs["a"] == "Inject":
+        exp_v = canon(obs["v"]) if "v" in obs else None
+        if got_r != exp_r or (exp_v is not None and got_v != exp_v):
+            # C19 is the equivalence with the explicit lookup: ask the real explicit lookup what it gives now
+            x_r, x_v = await real.explicit_lookup(obs)
+            same = (x_r == got_r or (got_r == "gen" and x_r == "val")) and (x_v == got_v or got_v is None)
+            props = attribute(dict(obs, a="Get"), exp_r, got_r, "result", None) if same else {"C19"}
+            return "inject", (exp_r, exp_v), (got_r, got_v, real.last_inject, "explicit lookup:", x_r, x_v), props
+    elif got_r != exp_r:
         return "result", exp_r, got_r, attribute(obs, exp_r, got_r, "result", None)
     if "v" in obs and obs["a"] == "Get":
         exp_v = canon(obs["v"])
@@ -619,7 +716,8 @@ _G = None      # the graph, shared with forked workers instead of being pickled
 def _walk_part(args):
     part, nparts, nctx, names, seed = args[:5]
     life = len(args) > 5 and args[5]
-    Exec = RealLife if life else Real
+    inj = len(args) > 6 and args[6]
+    Exec = RealLife if life else (type("RealInj", (Real,), {"inject": True}) if inj else Real)
     g = _G
     stats = collections.Counter()
     mism = []
@@ -749,10 +847,10 @@ TITLES = {
 }
 
 
-def _cfg_text(maxctx, maxregs, names, life=False, flaws=True, mc=False):
+def _cfg_text(maxctx, maxregs, names, life=False, flaws=True, mc=False, inj=False):
     nm = "{" + ", ".join(f'"{n}"' for n in names) + "}"
     head = "INIT Init\nNEXT NextMC\n" if mc else "INIT InitP\nNEXT NextP\n"
-    txt = head + f"VIEW View\nCONSTANTS\n  MaxCtx = {maxctx}\n  MaxRegs = {maxregs}\n  Names = {nm}\n  Life = {'TRUE' if life else 'FALSE'}\n  Flaws = {'TRUE' if flaws else 'FALSE'}\n"
+    txt = head + f"VIEW View\nCONSTANTS\n  MaxCtx = {maxctx}\n  MaxRegs = {maxregs}\n  Names = {nm}\n  Life = {'TRUE' if life else 'FALSE'}\n  Flaws = {'TRUE' if flaws else 'FALSE'}\n  Inj = {'TRUE' if inj else 'FALSE'}\n"
     if mc:
         txt += ("INVARIANT TypeOK\nINVARIANT ScopedDown\nINVARIANT GenNotShared\nINVARIANT GenIsOwn\nPROPERTY Stable\nPROPERTY OnlyActedOn\n"
                 "PROPERTY FailedChangesNothing\nPROPERTY Forward\nPROPERTY EventsRight\n")
